@@ -279,6 +279,38 @@ Example ex_sound :
              exists rows, answer (toy_cfg true) w_q_scan ps = Ok rows.
 Proof. intros ps [<-|[<-|[]]]; vm_compute; eexists; reflexivity. Qed.
 
+(* the order of one write batch in the model is the bracket that gen/gen_tx_order.py reads off shard/shard.go on every
+   run (TxOrder.tx_bracket: new cache transaction, storage transaction begins, callback, storage transaction ends,
+   cache Commit): the cache stays write-locked across the storage commit, nothing is committed before the second
+   step, exactly one version is appended by it, the third step only releases the lock. A code change that settles
+   the cache transaction inside the storage transaction is refused by the translator. *)
+Theorem c09_writer_follows_bracket : forall cfg st st1 st2 st3,
+  st_wph st = WIdle ->
+  step_writer cfg st = Some st1 -> step_writer cfg st1 = Some st2 -> step_writer cfg st2 = Some st3 ->
+  step_events (st_wph st) (st_wph st1) ++ step_events (st_wph st1) (st_wph st2) ++ step_events (st_wph st2) (st_wph st3)
+    = TxOrder.tx_bracket true /\
+  (exists cid nx, st_wph st1 = WInTx cid nx /\ committed st1 = committed st /\ wheld st1 cid = true /\
+                  (exists ok, st_wph st2 = WCommitted cid ok /\ wheld st2 cid = true /\
+                              committed st2 = committed st ++ [st_cur st2] /\ st_heap st2 = st_heap st1)) /\
+  st_wph st3 = WIdle /\ committed st3 = committed st2.
+Proof. exact writer_follows_bracket. Qed.
+Print Assumptions c09_writer_follows_bracket.
+
+Example ex_bracket :
+  let cfg := toy_cfg true in
+  let st := init w_p0 [w_batch] [] in
+  match step_writer cfg st with
+  | Some st1 => match step_writer cfg st1 with
+                | Some st2 => match step_writer cfg st2 with
+                              | Some st3 => st_wph st = WIdle /\ committed st3 = [w_p0; w_p1]
+                              | None => False
+                              end
+                | None => False
+                end
+  | None => False
+  end.
+Proof. vm_compute. split; reflexivity. Qed.
+
 (* the hypotheses of c09_inside_write_window on a reachable state: the writer has locked and updated the
    registered cache (key 0 already lists the node 2 it is about to commit) and is stopped inside its
    transaction; the idle reader's search (point read + full scan), run start to end, answers from the
